@@ -689,6 +689,17 @@ def rd_malformed():
         out.append((f'FC(Cl)(Br)I tag {name}', edit('FC(Cl)(Br)I', lambda rw, name=name: rw.GetAtomWithIdx(1).SetChiralTag(Chem.ChiralType.names[name]))))
         out.append((f'CC(C)(F)Cl tag {name}', edit('CC(C)(F)Cl', lambda rw, name=name: rw.GetAtomWithIdx(1).SetChiralTag(Chem.ChiralType.names[name]))))
         out.append((f'C=C tag {name}', edit('FC(Cl)=C', lambda rw, name=name: rw.GetAtomWithIdx(1).SetChiralTag(Chem.ChiralType.names[name]))))
+    # tags / labels on symmetric centres and bonds: chython translates them and fix_stereo erases them again
+    for smi, idx in (('CC(C)(C)F', 1), ('CC(C)(F)F', 1), ('CC1(C)CCCCC1', 1), ('OC(C)(C)CC', 1), ('CC(C)C(C)(C)O', 3), ('C[C@H](N)C(C)(C)F', 3)):
+        for name in ('CHI_TETRAHEDRAL_CW', 'CHI_TETRAHEDRAL_CCW'):
+            out.append((f'{smi} atom {idx} tag {name}', edit(smi, lambda rw, idx=idx, name=name: rw.GetAtomWithIdx(idx).SetChiralTag(Chem.ChiralType.names[name]))))
+    for smi, (bi, ei, sa, sb) in (('CC(C)=C(F)Cl', (1, 3, 0, 4)), ('FC(F)=C(C)N', (1, 3, 0, 4)), ('CC(C)=CC', (1, 3, 0, 4)), ('C/C=C/C(C)=C(C)C', (3, 5, 4, 6))):
+        for name in ('STEREOZ', 'STEREOE'):
+            def h(rw, bi=bi, ei=ei, sa=sa, sb=sb, name=name):
+                bd = rw.GetBondBetweenAtoms(bi, ei)
+                bd.SetStereoAtoms(sa, sb)
+                bd.SetStereo(Chem.BondStereo.names[name])
+            out.append((f'{smi} bond {bi}={ei} label {name}', edit(smi, h)))
     for k in (2, 3, 4):
         out.append((f'{k} radical electrons', edit('CC', lambda rw, k=k: rw.GetAtomWithIdx(0).SetNumRadicalElectrons(k))))
     out.append(('empty', Chem.Mol()))
